@@ -100,6 +100,28 @@ static std::string iterProtocol(const SEQ &seq, const SEQ &other, const VEC &dim
   return out;
 }
 
+// every way of moving an iterator, each followed by a dereference of the moved iterator (and of what the operator
+// returned); printed as <current()>:<*it>
+template <typename SEQ, typename VEC>
+static std::string iterMoves(const SEQ &, const VEC &dims, ull st, ull n)
+{
+  typedef decltype(std::declval<SEQ>().begin()) IT;
+  auto sh = [](const IT &i) { return S(i.current()) + ":" + show(*i); };
+  std::string out;
+  IT it(dims, (size_t)st);
+  { IT r = --it; out += sh(it) + " " + sh(r); }
+  { IT r = ++it; out += " " + sh(it) + " " + sh(r); }
+  { IT &r = it--; out += " " + sh(it) + " " + sh(r); }
+  { IT &r = it++; out += " " + sh(it) + " " + sh(r); }
+  { IT &r = it + (size_t)n; out += " " + sh(r); }
+  { IT &r = it - (size_t)n; out += " " + sh(r); }
+  { IT o(dims, (size_t)n); IT &r = it + o; out += " " + sh(r); }
+  { IT o(dims, (size_t)n); IT &r = it - o; out += " " + sh(it); (void)r; }
+  it.jump_to((size_t)n);
+  out += " " + sh(it);
+  return out;
+}
+
 int main()
 {
   std::unique_ptr<Pool> pool(new Pool);
@@ -135,6 +157,14 @@ int main()
         if (op == "itp2") {
           vec_t<size_t, 2> d(U(w[1]), U(w[2])), o(U(w[2]), U(w[1]));
           return iterProtocol(index_sequence_2D(d), index_sequence_2D(o), d, o, U(w[3]));
+        }
+        if (op == "itq2") {
+          vec_t<size_t, 2> d(U(w[1]), U(w[2]));
+          return iterMoves(index_sequence_2D(d), d, U(w[3]), U(w[4]));
+        }
+        if (op == "itq3") {
+          vec_t<size_t, 3> d(U(w[1]), U(w[2]), U(w[3]));
+          return iterMoves(index_sequence_3D(d), d, U(w[4]), U(w[5]));
         }
         if (op == "itp3") {
           vec_t<size_t, 3> d(U(w[1]), U(w[2]), U(w[3])), o(U(w[2]), U(w[1]), U(w[3]));
